@@ -52,18 +52,18 @@ func (c *Case) HayBytes() []byte {
 
 // Plan is the deterministic description of what one (property, tier) run explores.
 type Plan struct {
-	Units    int                      // number of work units (e.g. patterns)
-	Chunk    int                      // units per job (default 16)
-	Run      func(w *W, unit int)     // executes one unit in a worker
-	Describe func(unit int) string    // for crash attribution / samples
-	Replay   func(w *W, c *Case)      // re-runs exactly the case; must call w.Fail again if it still fails
-	Rule     string                   // evidence: how cases are enumerated, what is non-trivial
-	Level    string                   // evidence level
-	Assume   []string                 // evidence assumptions
-	Bounds   map[string]any           // evidence: the bounds of this tier
-	Budget   time.Duration            // internal deadline for dispatching
-	UnitTimeout time.Duration         // watchdog per unit (default 120 s)
-	Passes      []Pass                // the whole unit space is explored once per pass (default: one unnamed pass)
+	Units       int                                         // number of work units (e.g. patterns)
+	Chunk       int                                         // units per job (default 16)
+	Run         func(w *W, unit int)                        // executes one unit in a worker
+	Describe    func(unit int) string                       // for crash attribution / samples
+	Replay      func(w *W, c *Case)                         // re-runs exactly the case; must call w.Fail again if it still fails
+	Rule        string                                      // evidence: how cases are enumerated, what is non-trivial
+	Level       string                                      // evidence level
+	Assume      []string                                    // evidence assumptions
+	Bounds      map[string]any                              // evidence: the bounds of this tier
+	Budget      time.Duration                               // internal deadline for dispatching
+	UnitTimeout time.Duration                               // watchdog per unit (default 120 s)
+	Passes      []Pass                                      // the whole unit space is explored once per pass (default: one unnamed pass)
 	Extra       func(total map[string]int64) map[string]any // extra evidence keys computed from merged counters
 }
 
@@ -252,151 +252,151 @@ func Coordinate(opt Options, plan *Plan, store *kf.Store) int {
 		passes = []Pass{{}}
 	}
 	for _, pass := range passes {
-	popt := opt
-	popt.Env = append(append([]string{}, opt.Env...), pass.Env...)
-	popt.WorkerArgs = append(append([]string{}, opt.WorkerArgs...), "--pass", pass.Name)
-	var queue []job
-	for lo := 0; lo < plan.Units; lo += plan.Chunk {
-		hi := lo + plan.Chunk
-		if hi > plan.Units {
-			hi = plan.Units
-		}
-		queue = append(queue, job{lo, hi})
-	}
-	// VERIF_SEED only permutes shard order (DESIGN §2.4): rotate the queue.
-	if n := len(queue); n > 0 && opt.Seed != 0 {
-		r := int(uint64(opt.Seed) % uint64(n))
-		queue = append(queue[r:], queue[:r]...)
-	}
-	var crashed []int // units that killed a worker
-	next := func() (job, bool) {
-		mu.Lock()
-		defer mu.Unlock()
-		if plan.Budget > 0 && time.Since(start) > plan.Budget {
-			if len(queue) > 0 {
-				deadlineHit = true
+		popt := opt
+		popt.Env = append(append([]string{}, opt.Env...), pass.Env...)
+		popt.WorkerArgs = append(append([]string{}, opt.WorkerArgs...), "--pass", pass.Name)
+		var queue []job
+		for lo := 0; lo < plan.Units; lo += plan.Chunk {
+			hi := lo + plan.Chunk
+			if hi > plan.Units {
+				hi = plan.Units
 			}
-			return job{}, false
+			queue = append(queue, job{lo, hi})
 		}
-		if len(queue) == 0 {
-			return job{}, false
+		// VERIF_SEED only permutes shard order (DESIGN §2.4): rotate the queue.
+		if n := len(queue); n > 0 && opt.Seed != 0 {
+			r := int(uint64(opt.Seed) % uint64(n))
+			queue = append(queue[r:], queue[:r]...)
 		}
-		j := queue[0]
-		queue = queue[1:]
-		return j, true
-	}
-	merge := func(r *jobResult) {
-		mu.Lock()
-		defer mu.Unlock()
-		for k, v := range r.C {
-			total[k] += v
-		}
-		for k, v := range r.Known {
-			known[k] += v
-		}
-		nUnknown += r.NUnknown
-		if len(unknown) < 64 {
-			unknown = append(unknown, r.Unknown...)
-		}
-		unitsDone += r.Hi - r.Lo
-		if len(samples) < 3 || r.Lo == 0 {
-			samples = append(samples, r.Samples...)
-		}
-	}
-	var wg sync.WaitGroup
-	for i := 0; i < opt.Workers; i++ {
-		wg.Add(1)
-		go func(id int) {
-			defer wg.Done()
-			for {
-				j, ok := next()
-				if !ok {
-					return
+		var crashed []int // units that killed a worker
+		next := func() (job, bool) {
+			mu.Lock()
+			defer mu.Unlock()
+			if plan.Budget > 0 && time.Since(start) > plan.Budget {
+				if len(queue) > 0 {
+					deadlineHit = true
 				}
-				// (re)start a worker for this and following jobs
-				wk, err := startWorker(popt, id)
-				if err != nil {
-					fmt.Fprintln(os.Stderr, "harness: cannot start worker:", err)
-					os.Exit(2)
-				}
+				return job{}, false
+			}
+			if len(queue) == 0 {
+				return job{}, false
+			}
+			j := queue[0]
+			queue = queue[1:]
+			return j, true
+		}
+		merge := func(r *jobResult) {
+			mu.Lock()
+			defer mu.Unlock()
+			for k, v := range r.C {
+				total[k] += v
+			}
+			for k, v := range r.Known {
+				known[k] += v
+			}
+			nUnknown += r.NUnknown
+			if len(unknown) < 64 {
+				unknown = append(unknown, r.Unknown...)
+			}
+			unitsDone += r.Hi - r.Lo
+			if len(samples) < 3 || r.Lo == 0 {
+				samples = append(samples, r.Samples...)
+			}
+		}
+		var wg sync.WaitGroup
+		for i := 0; i < opt.Workers; i++ {
+			wg.Add(1)
+			go func(id int) {
+				defer wg.Done()
 				for {
-					res, lastUnit, err := wk.do(j.lo, j.hi, plan.UnitTimeout)
-					if err != nil {
-						// worker died or hung in lastUnit
-						wk.kill()
-						mu.Lock()
-						if lastUnit >= 0 {
-							crashed = append(crashed, lastUnit)
-							if lastUnit+1 < j.hi {
-								queue = append(queue, job{lastUnit + 1, j.hi})
-							}
-							// units [j.lo,lastUnit) were executed but their results are lost: requeue them
-							if lastUnit > j.lo {
-								queue = append(queue, job{j.lo, lastUnit})
-							}
-						} else {
-							fmt.Fprintln(os.Stderr, "harness: worker died before starting a unit:", err, wk.stderrTail())
-							mu.Unlock()
-							os.Exit(2)
-						}
-						mu.Unlock()
-						break
-					}
-					merge(res)
-					j, ok = next()
+					j, ok := next()
 					if !ok {
-						wk.close()
 						return
 					}
+					// (re)start a worker for this and following jobs
+					wk, err := startWorker(popt, id)
+					if err != nil {
+						fmt.Fprintln(os.Stderr, "harness: cannot start worker:", err)
+						os.Exit(2)
+					}
+					for {
+						res, lastUnit, err := wk.do(j.lo, j.hi, plan.UnitTimeout)
+						if err != nil {
+							// worker died or hung in lastUnit
+							wk.kill()
+							mu.Lock()
+							if lastUnit >= 0 {
+								crashed = append(crashed, lastUnit)
+								if lastUnit+1 < j.hi {
+									queue = append(queue, job{lastUnit + 1, j.hi})
+								}
+								// units [j.lo,lastUnit) were executed but their results are lost: requeue them
+								if lastUnit > j.lo {
+									queue = append(queue, job{j.lo, lastUnit})
+								}
+							} else {
+								fmt.Fprintln(os.Stderr, "harness: worker died before starting a unit:", err, wk.stderrTail())
+								mu.Unlock()
+								os.Exit(2)
+							}
+							mu.Unlock()
+							break
+						}
+						merge(res)
+						j, ok = next()
+						if !ok {
+							wk.close()
+							return
+						}
+					}
+				}
+			}(i)
+		}
+		wg.Wait()
+		// crashed units: re-run alone 5 times in fresh processes
+		sort.Ints(crashed)
+		for _, u := range crashed {
+			repro := 0
+			var lastErr string
+			var good *jobResult
+			for k := 0; k < 5; k++ {
+				wk, err := startWorker(popt, 100+k)
+				if err != nil {
+					break
+				}
+				res, _, err := wk.do(u, u+1, plan.UnitTimeout)
+				if err != nil {
+					repro++
+					lastErr = err.Error() + " " + wk.stderrTail()
+					wk.kill()
+					continue
+				}
+				wk.close()
+				good = res
+				if repro == 0 && k >= 1 {
+					break
 				}
 			}
-		}(i)
-	}
-	wg.Wait()
-	// crashed units: re-run alone 5 times in fresh processes
-	sort.Ints(crashed)
-	for _, u := range crashed {
-		repro := 0
-		var lastErr string
-		var good *jobResult
-		for k := 0; k < 5; k++ {
-			wk, err := startWorker(popt, 100+k)
-			if err != nil {
-				break
+			if good != nil {
+				merge(good)
 			}
-			res, _, err := wk.do(u, u+1, plan.UnitTimeout)
-			if err != nil {
-				repro++
-				lastErr = err.Error() + " " + wk.stderrTail()
-				wk.kill()
-				continue
-			}
-			wk.close()
-			good = res
-			if repro == 0 && k >= 1 {
-				break
+			if repro == 5 {
+				c := &Case{Property: opt.Prop, Op: "worker-death", Mode: pass.Name, Pattern: plan.Describe(u), Hay: `""`, Want: "returns normally", Got: "process died or hung (5/5 runs)", Cluster: "crash", Extra: map[string]string{"detail": firstLine(lastErr)}}
+				h := c.Hash()
+				c.Key = fmt.Sprintf("%016x", h)
+				total["failing_cases"]++
+				if i := store.Lookup(h); i >= 0 {
+					known[i]++
+				} else {
+					nUnknown++
+					unknown = append(unknown, c)
+				}
+				unitsDone++
+			} else if repro > 0 {
+				fmt.Fprintf(os.Stderr, "harness: unit %d (%s) killed a worker %d/5 times when re-run alone; not reported as a violation (not reproducible)\n", u, plan.Describe(u), repro)
+				total["flaky_worker_deaths"]++
 			}
 		}
-		if good != nil {
-			merge(good)
-		}
-		if repro == 5 {
-			c := &Case{Property: opt.Prop, Op: "worker-death", Mode: pass.Name, Pattern: plan.Describe(u), Hay: `""`, Want: "returns normally", Got: "process died or hung (5/5 runs)", Cluster: "crash", Extra: map[string]string{"detail": firstLine(lastErr)}}
-			h := c.Hash()
-			c.Key = fmt.Sprintf("%016x", h)
-			total["failing_cases"]++
-			if i := store.Lookup(h); i >= 0 {
-				known[i]++
-			} else {
-				nUnknown++
-				unknown = append(unknown, c)
-			}
-			unitsDone++
-		} else if repro > 0 {
-			fmt.Fprintf(os.Stderr, "harness: unit %d (%s) killed a worker %d/5 times when re-run alone; not reported as a violation (not reproducible)\n", u, plan.Describe(u), repro)
-			total["flaky_worker_deaths"]++
-		}
-	}
 
 	} // passes
 
